@@ -24,7 +24,7 @@ import (
 //     alone; an accept loop that stops listening when it believes the mesh is
 //     complete refuses the connections that arrive late.
 func C19wait(p *load.Program, run *report.Run) {
-	run.Rule("need-wait-dominates-success", "in every method of p2p.Network containing a sync.Cond.Wait, each return whose error result is the nil constant is dominated by the first test of the condition of the loop around that Wait")
+	run.Rule("need-wait-dominates-success", "in every method of p2p.Network that waits (sync.Cond.Wait, or a receive from a channel field of the network), each return whose error result is the nil constant is dominated by the first test of the loop around that wait")
 	run.Rule("listener-closed-only-by-close", "Close is invoked on the Network's listener field only inside (*Network).Close")
 	nwT, err := p.Type("p2p", "Network")
 	if err != nil {
@@ -68,26 +68,20 @@ func C19wait(p *load.Program, run *report.Run) {
 		}
 		// wait loops
 		var headers []*ssa.BasicBlock
-		for _, b := range fn.Blocks {
-			for _, ins := range b.Instrs {
-				c, ok := ins.(ssa.CallInstruction)
-				if !ok {
-					continue
+		for _, op := range syncOpsOf(fn) {
+			if op.kind != "wait" || !strings.HasPrefix(op.key, "p2p.Network.") {
+				continue
+			}
+			b := op.ins.Block()
+			// the header: the outermost dominator of b that ends in an If and is reachable from b
+			var top *ssa.BasicBlock
+			for h := b.Idom(); h != nil; h = h.Idom() {
+				if _, isIf := h.Instrs[len(h.Instrs)-1].(*ssa.If); isIf && blockReaches(b, h) {
+					top = h // the outermost test of the loop condition (a && b has two)
 				}
-				callee := c.Common().StaticCallee()
-				if callee == nil || callee.Name() != "Wait" || callee.Pkg == nil || callee.Pkg.Pkg.Path() != "sync" {
-					continue
-				}
-				// the header: the closest dominator of b that ends in an If and is reachable from b
-				var top *ssa.BasicBlock
-				for h := b.Idom(); h != nil; h = h.Idom() {
-					if _, isIf := h.Instrs[len(h.Instrs)-1].(*ssa.If); isIf && blockReaches(b, h) {
-						top = h // the outermost test of the loop condition (a && b has two)
-					}
-				}
-				if top != nil {
-					headers = append(headers, top)
-				}
+			}
+			if top != nil {
+				headers = append(headers, top)
 			}
 		}
 		if len(headers) == 0 {
@@ -128,7 +122,14 @@ func C19wait(p *load.Program, run *report.Run) {
 		}
 	}
 	// announce-after-install
-	run.Rule("announce-after-install", "in every function of p2p that both installs a connection (Network.addPeer, Peer.SetConn) and wakes the waiters (sync.Cond.Broadcast/Signal), no install call is reachable from a wake-up: the count the waiters test reaches zero only when the peers and connections it stands for are in place (connectLeader reads the peer table as soon as it wakes)")
+	run.Rule("announce-after-install", "in every function of p2p that both installs a connection (Network.addPeer, Peer.SetConn) and wakes the waiters (sync.Cond.Broadcast/Signal, a send on or close of a channel field, or a call of a package function that does), no install call is reachable from a wake-up: the count the waiters test reaches zero only when the peers and connections it stands for are in place (connectLeader reads the peer table as soon as it wakes)")
+	var p2pFns []*ssa.Function
+	for _, fn := range p.AllFunctions() {
+		if fn.Pkg != nil && fn.Pkg.Pkg.Path() == load.Module+"/p2p" && fn.Blocks != nil && fn.Synthetic == "" {
+			p2pFns = append(p2pFns, fn)
+		}
+	}
+	wakers := wakersIn(p2pFns)
 	for _, fn := range p.AllFunctions() {
 		if fn.Pkg == nil || fn.Pkg.Pkg.Path() != load.Module+"/p2p" || fn.Blocks == nil || fn.Synthetic != "" {
 			continue
@@ -136,6 +137,9 @@ func C19wait(p *load.Program, run *report.Run) {
 		var wakes, installs []ssa.Instruction
 		for _, b := range fn.Blocks {
 			for _, ins := range b.Instrs {
+				if isWakeInstr(ins, wakers) {
+					wakes = append(wakes, ins)
+				}
 				c, ok := ins.(ssa.CallInstruction)
 				if !ok {
 					continue
@@ -144,10 +148,7 @@ func C19wait(p *load.Program, run *report.Run) {
 				if callee == nil {
 					continue
 				}
-				switch {
-				case callee.Pkg != nil && callee.Pkg.Pkg.Path() == "sync" && (callee.Name() == "Broadcast" || callee.Name() == "Signal"):
-					wakes = append(wakes, ins)
-				case callee.Pkg != nil && callee.Pkg.Pkg.Path() == load.Module+"/p2p" && (callee.Name() == "addPeer" || callee.Name() == "SetConn"):
+				if callee.Pkg != nil && callee.Pkg.Pkg.Path() == load.Module+"/p2p" && (callee.Name() == "addPeer" || callee.Name() == "SetConn") {
 					installs = append(installs, ins)
 				}
 			}
@@ -172,6 +173,6 @@ func C19wait(p *load.Program, run *report.Run) {
 		}
 	}
 	run.Floor("install-and-wake-functions", 1)
-	run.Floor("waiting-methods", 2)
+	run.Floor("waiting-methods", 1)
 	run.Floor("listener-close-sites", 1)
 }
